@@ -313,7 +313,12 @@ func genHistory(id int, seed int64, p GenParams) *History {
 					g.add(Op{Op: "migrate", Arg: h.Ops[len(h.Ops)-1].Arg})
 				}
 			}
-			g.add(Op{Op: "open", O: g.drawOpts(false)})
+			o := g.drawOpts(false)
+			if p.WBackup > 0 && rng.Intn(2) == 0 { // the backup as the very first call on the new handle
+				o.CB = 1 + rng.Intn(2)
+				dirty = false
+			}
+			g.add(Op{Op: "open", O: o})
 		case r < p.WPublish+p.WDelete+p.WDeleteMulti+p.WReopen+p.WGC:
 			g.add(Op{Op: "gc", Arg: int64(rng.Intn(2)) * 3600e9})
 		case r < p.WPublish+p.WDelete+p.WDeleteMulti+p.WReopen+p.WGC+p.WSync:
